@@ -26,6 +26,12 @@ NVAR = 256
 #   ('skip',) ('eff',id) ('seq',[s..]) ('if',c,a,b) ('while',c,s) ('yield',) ('wait',) ('wu',c) ('exit',) ('exiton',c)
 #   ('fail',) ('failon',c) ('spawn',child) ('spawnck',child) ('call',child) ('childok',a,b)
 # conditions: ('lt',v,k) ('odd',v) ('tickge',k) ('incmod',v,m) ('postincge',v,k) ('not',c)
+#             ('wide',kind,c): the same truth value, but the C expression has a type wider than int / not an integer
+#             (kind in WIDE); the model and the reference see only `c`
+WIDE = {'shl32': '((unsigned long long)(%s) << 32)',        # low 32 bits are zero
+        'q64': '((%s) ? 0x100000000ull : 0ull)',
+        'dbl': '((%s) ? 0.5 : 0.0)',                         # truncates to 0 as an int
+        'ptr': '((void *)(long)(%s))'}                       # a pointer is a legal controlling expression
 
 class Gen:
     def __init__(self, rng, maxdepth=5, kids=3):
@@ -37,7 +43,18 @@ class Gen:
             self.overflow = True            # the caller discards this body (two loops must never share a counter)
         return min(self.nv, NVAR - 1)
 
+    def widen(self, c):
+        if self.r.chance(1, 3):
+            return ('wide', self.r.choice(['shl32', 'q64', 'dbl', 'shl32', 'q64', 'dbl', 'ptr']), c)
+        return c
+
     def pure_cond(self, in_call):
+        return self.widen(self.pure_cond0(in_call))
+
+    def wait_cond(self, in_call):
+        return self.widen(self.wait_cond0(in_call))
+
+    def pure_cond0(self, in_call):
         r = self.r
         k = r.below(5 if in_call else 7)
         if k == 0: return ('lt', r.below(4), r.range(0, 6))
@@ -48,7 +65,7 @@ class Gen:
         if k == 5: return ('tickge', r.range(0, 12))
         return ('not', ('tickge', r.range(0, 12)))
 
-    def wait_cond(self, in_call):
+    def wait_cond0(self, in_call):
         r = self.r
         k = r.below(3 if in_call else 5)
         if k == 0: return ('incmod', self.var(), r.range(0, 3))
@@ -60,10 +77,10 @@ class Gen:
     def loop(self, depth, in_call, kids):
         r = self.r
         if r.chance(2, 3):
-            return ('while', ('not', ('incmod', self.var(), r.range(0, 3))), self.block(depth - 1, in_call, kids))
+            return ('while', self.widen(('not', ('incmod', self.var(), r.range(0, 3)))), self.block(depth - 1, in_call, kids))
         v = r.below(4)                                                    # while (v[v] < k) { ...; EFF(≡ v mod 4) }
         body = self.block(depth - 1, in_call, kids)
-        return ('while', ('lt', v, r.range(1, 6)), ('seq', [body, ('eff', 4 * r.below(20) + v)]))
+        return ('while', self.widen(('lt', v, r.range(1, 6))), ('seq', [body, ('eff', 4 * r.below(20) + v)]))
 
     def leaf(self, in_call):
         r = self.r
@@ -131,10 +148,12 @@ def c_cond(c):
     if k == 'incmod': return '((++v[%d]) %% %d == 0)' % (c[1], c[2] + 1)
     if k == 'postincge': return '(v[%d]++ >= %d)' % (c[1], c[2])
     if k == 'not': return '(!%s)' % c_cond(c[1])
+    if k == 'wide': return WIDE[c[1]] % c_cond(c[2])       # the inner expression is evaluated exactly once
     raise ValueError(c)
 
 
 def m_cond(c):
+    if c[0] == 'wide': return m_cond(c[2])                  # truth value only
     return ('not ' + m_cond(c[1])) if c[0] == 'not' else ' '.join(str(x) for x in c)
 
 
@@ -346,6 +365,7 @@ def reference(body, maxinv=MAXINV):
         if k == 'incmod': v[c[1]] += 1; return v[c[1]] % (c[2] + 1) == 0
         if k == 'postincge': v[c[1]] += 1; return v[c[1]] - 1 >= c[2]
         if k == 'not': return not cond(c[1])
+        if k == 'wide': return cond(c[2])
         raise ValueError(c)
 
     def top(code):
@@ -428,9 +448,21 @@ def judge(r, body=None):
 
 
 # --------------------------------------------------------------------------- shrinking, replays
+def cond_reductions(c):
+    if c[0] == 'wide':
+        yield c[2]
+        for y in cond_reductions(c[2]): yield ('wide', c[1], y)
+    elif c[0] == 'not':
+        if c[1][0] == 'not': yield c[1][1]
+        for y in cond_reductions(c[1]): yield ('not', y)
+
+
 def reductions(s):
     """all bodies obtained from `s` by one deletion / replacement of a compound by one of its parts"""
     k = s[0]
+    if k in ('if', 'while', 'wu', 'exiton', 'failon'):
+        for c in cond_reductions(s[1]):
+            yield s[:1] + (c,) + s[2:]
     if k == 'seq':
         xs = s[1]
         for i in range(len(xs)):
@@ -552,6 +584,8 @@ def features(s, ctxs=(), out=None):
         out.add(k + '-in-loop')
     if k in ('wu', 'exiton', 'failon', 'if', 'while') and has_side_effect(s[1]):
         out.add(k + '-side-effecting-cond')
+    if k in ('wu', 'exiton', 'failon', 'if', 'while'):
+        for w in wide_kinds(s[1]): out.add('%s-cond-%s' % (k, w))
     if k in ('if', 'childok'):
         for br, nm in ((s[-2], 'then'), (s[-1], 'else')):
             if br[0] != 'seq': out.add('unbraced-%s:%s' % (nm, br[0]))
@@ -571,7 +605,12 @@ def features(s, ctxs=(), out=None):
 
 
 def has_side_effect(c):
-    return c[0] in ('incmod', 'postincge') or (c[0] == 'not' and has_side_effect(c[1]))
+    return c[0] in ('incmod', 'postincge') or (c[0] in ('not', 'wide') and has_side_effect(c[-1]))
+
+
+def wide_kinds(c):
+    if c[0] == 'wide': return {c[1]} | wide_kinds(c[2])
+    return wide_kinds(c[1]) if c[0] == 'not' else set()
 
 
 # --------------------------------------------------------------------------- exhaustive small bodies (thorough tier)
@@ -589,6 +628,11 @@ def small_bodies():
                 atoms.append((k, ('seq', [a, b])))
             atoms.append(('seq', [('spawn', ('seq', [a, b])), ('childok', ('eff', 3), ('eff', 4))]))
             atoms.append(('while', ('not', ('incmod', 10, 1)), ('spawn', ('seq', [a, b]))))
+    for kind in ('shl32', 'q64', 'dbl', 'ptr'):                 # every condition-taking macro with every wide rendering
+        atoms += [('wu', ('wide', kind, ('incmod', 8, 1))), ('exiton', ('wide', kind, ('odd', 1))), ('failon', ('wide', kind, ('odd', 1))),
+                  ('spawnck', ('seq', [('failon', ('wide', kind, ('odd', 1))), ('eff', 5)])),
+                  ('if', ('wide', kind, ('odd', 1)), ('eff', 6), ('yield',)),
+                  ('while', ('wide', kind, ('not', ('incmod', 9, 1))), ('wait',))]
     out = [('seq', [a]) for a in atoms]
     for a in atoms:
         for l in leaves:
@@ -657,7 +701,7 @@ def run(ctx):
     ctx.sample({'body': 'run %d %d %s' % (MAXINV, FUEL, Emit_tokens(bodies[0]))})
     ctx.sample({'body': 'run %d %d %s' % (MAXINV, FUEL, Emit_tokens(bodies[-1]))})
     ctx.cov['rule'] = ('random protothread bodies (nesting <= 5, blocking points in loops in conditionals, children spawned/called to depth 3 incl. from inside loops, '
-                       'side-effecting conditions) compiled with the real macros by gcc and invoked until exit (at most %d times); compared per invocation with the Lean model and, '
+                       'side-effecting conditions, a third of them rendered in a type wider than int or non-integer with the same truth value, unbraced single-statement branches) compiled with the real macros by gcc and invoked until exit (at most %d times); compared per invocation with the Lean model and, '
                        'flattened, with the body run as one sequential program; distinct = distinct body; non-trivial = at least two invocations' % MAXINV)
     ctx.assumptions.append(META['level_note'])
     if ctx.broken and not ctx.violations:
